@@ -729,10 +729,16 @@ func c01DistinctKeys(l *ssau.RangeLoop) (bool, string) {
 	if l.IsMap {
 		return true, "the keys of a map"
 	}
-	if _, ok := ssau.IsFieldLoad(l.Over, dbType, "Commands"); ok {
+	return c01DistinctList(l.Over, 0)
+}
+
+// c01DistinctList: the list v holds no element twice.
+func c01DistinctList(v ssa.Value, d int) (bool, string) {
+	lOver := v
+	if _, ok := ssau.IsFieldLoad(lOver, dbType, "Commands"); ok {
 		return true, "the indices of db.Commands"
 	}
-	over := l.Over
+	over := lOver
 	// a reslice (or a merge of reslices) of one list holds a subset of its
 	// elements: distinctness is inherited
 	if src := ssau.SliceSources(over); len(src) == 1 {
@@ -752,7 +758,7 @@ func c01DistinctKeys(l *ssau.RangeLoop) (bool, string) {
 		}
 	}
 	// a slice collecting the keys of a map, one append of the key per iteration
-	if phi, ok := l.Over.(*ssa.Phi); ok {
+	if phi, ok := lOver.(*ssa.Phi); ok {
 		fn := phi.Parent()
 		for _, ml := range ssau.RangeLoops(fn) {
 			if !ml.IsMap || ml.Header != phi.Block() {
@@ -781,11 +787,28 @@ func c01DistinctKeys(l *ssau.RangeLoop) (bool, string) {
 			}
 		}
 	}
-	if p := ssau.ParamOf(l.Over); p != nil {
+	if p := ssau.ParamOf(lOver); p != nil {
 		return true, "the elements of the list passed in (uniqueness is inherited)"
 	}
-	if _, ok := l.Over.(*ssa.Parameter); ok {
+	if _, ok := lOver.(*ssa.Parameter); ok {
 		return true, "the elements of the list passed in (uniqueness is inherited)"
+	}
+	// a helper of the repository every result of which is such a list
+	if call, ok := over.(*ssa.Call); ok && d < 3 {
+		if g := call.Common().StaticCallee(); g != nil && g.Blocks != nil && g.Signature.Results().Len() == 1 {
+			rets := ssau.ReturnsOf(g)
+			why := ""
+			for _, ret := range rets {
+				ok, w := c01DistinctList(ssau.ResultValue(ret, 0), d+1)
+				if !ok {
+					return false, "an unrecognised collection"
+				}
+				why = w
+			}
+			if len(rets) > 0 {
+				return true, why + " (built by " + g.Name() + ")"
+			}
+		}
 	}
 	return false, "an unrecognised collection"
 }
